@@ -79,6 +79,12 @@ class MonSocket(socket.socket):
     def setsockopt(self, *a):
         # TCP keep-alive options are recorded and swallowed (AF_UNIX would reject them: harness artefact)
         self._l.ev("sockopt", self.sid, tuple(int(x) if isinstance(x, int) else repr(x) for x in a))
+        if self._l.sockopt_faults and len(a) >= 2 and a[0] == socket.IPPROTO_TCP:
+            # a network stack that does not know this option (WSL1, gVisor, some containers): injected on request only
+            err = self._l.sockopt_faults.pop(0)
+            if err:
+                self._l.ev("sockopterr", self.sid, err)
+                raise OSError(err, "injected: protocol option not available")
 
     def send(self, data, *a):
         l = self._l
@@ -143,6 +149,7 @@ class VLoop(asyncio.SelectorEventLoop):
         self.live: dict = {}            # sid -> owner, sockets currently open
         self.peers: dict = {}           # (host, port) -> peer object with attach(sock, kind)
         self.owners: dict = {}          # (host, port) -> owner label
+        self.sockopt_faults: list = []  # errnos for the next TCP-level setsockopt() calls (0 = succeed)
         self.connect_scripts: dict = {}  # owner -> list of outcomes ('ok'|'refused'|'unreach'|'hang'|('ok', delay))
         self.send_faults: dict = {}     # (owner, k-th send of owner) -> errno
         self.armed_send_faults: list = []  # errnos consumed by the next send() calls (armed by a scenario step)
